@@ -86,6 +86,30 @@ pub fn pair_cases(thorough: bool, out: &mut Vec<Case>) {
         }
     }
 
+    // ---- a complete font with one extreme size field as the document's font, then text, then a sixel: the picture is placed
+    // and clipped with the font's cell size (50 ms per case: only fonts that the loader accepts, or that make it panic)
+    for (tag, fields) in [("psf2:custom8x1", &PSF2_FIELDS[..]), ("psf1:mode0:8x1", &PSF1_FIELDS[..]), ("psf2:default8x16", &PSF2_FIELDS[..])] {
+        let Some((_, g)) = find_golden(G_FONT, tag) else { continue };
+        for (off, w) in fields {
+            for v in crate::mutate::extremes(*w) {
+                let font = apply_all(&g.bytes, &[Mut::Put { at: *off as u32, width: *w, val: *v }]);
+                if matches!(icyv::panics::guarded(|| icy_engine::BitFont::from_bytes("probe", &font)), Ok(Err(_))) {
+                    continue;
+                }
+                for slot in [0, 1] {
+                    let mut dcs = format!("\x1bPCTerm:Font:{slot}:").into_bytes();
+                    dcs.extend(general_purpose::STANDARD.encode(&font).bytes());
+                    dcs.extend_from_slice(b"\x1b\\");
+                    dcs.extend_from_slice(if slot == 1 { &b"\x1b[11m"[..] } else { &b""[..] });
+                    dcs.extend_from_slice(b"abc");
+                    dcs.extend_from_slice(SIXEL);
+                    dcs.extend_from_slice(b"z\r\n");
+                    out.push(Case { target: ans, src: Src::Raw(Bytes(dcs)), inner: vec![], muts: vec![] });
+                }
+            }
+        }
+    }
+
     // ---- .icy record headers: ICED (width, height), FONT_ (name length), LAYER_ (title length, size, data length, picture size)
     {
         let n = base.len();
@@ -205,6 +229,9 @@ pub fn pair_cases(thorough: bool, out: &mut Vec<Case>) {
     }
 }
 
+/// a small sixel picture (one colour, two columns)
+pub const SIXEL: &[u8] = b"\x1bPq#1;2;100;0;0#1~~\x1b\\";
+
 /// Huge numbers in ANSI-family FILES (documents grow instead of scrolling: other code paths than a terminal):
 /// prefix {none, 90 x LF, text + margins} x every CSI final 0x40..=0x7E x 8 intermediates x parameter lists of length <= 2 over
 /// {0, 1, 25, 65536, 2147483599, 2147483647}; the count of REP (CSI Pn b) is capped at 9999.
@@ -262,6 +289,64 @@ pub fn csi_cases(thorough: bool, out: &mut Vec<Case>) {
                         out.push(Case { target: t, src: Src::Raw(Bytes(v)), inner: vec![], muts: vec![] });
                     }
                 }
+            }
+        }
+    }
+
+    // ---- sixels combined with other features (every file with a sixel costs >= 50 ms: parse_with_parser polls the decoder)
+    let seq = |fin: u8, l: &[u32]| {
+        let mut v = b"\x1b[".to_vec();
+        v.extend_from_slice(l.iter().map(|n| n.to_string()).collect::<Vec<_>>().join(";").as_bytes());
+        v.push(fin);
+        v
+    };
+    let sixel_tail = |mut v: Vec<u8>| {
+        v.extend_from_slice(SIXEL);
+        v.extend_from_slice(b"z\r\n");
+        v
+    };
+    let ans = target("ans");
+    // (i) the sequence under test, then a small sixel, then a character: every final, no intermediate, parameter lists
+    //     {none, 1, 2147483647}, after {nothing, text + margins, text area 132 columns wide + cursor far right}
+    let wide_right: &[u8] = b"\x1b[8;30;132t\x1b[3;120H";
+    for prefix in [&b""[..], &b"Hello\r\nworld \x1b[5;20r\x1b[?69h\x1b[10;70s\x1b[12;30Hab"[..], wide_right] {
+        for fin in 0x40u8..=0x7E {
+            for l in [&[][..], &[1u32][..], &[2_147_483_647][..], &[200_000_000][..]] {
+                if !thorough && l == [200_000_000] && !matches!(fin, b'B' | b'C' | b'E' | b'H' | b'd' | b'e' | b'a' | b'G' | b'f' | b'`') {
+                    continue;
+                }
+                let mut v = prefix.to_vec();
+                v.extend(seq(if fin == b'b' { b'b' } else { fin }, &l.iter().map(|n| if fin == b'b' { (*n).min(9999) } else { *n }).collect::<Vec<_>>()));
+                out.push(Case { target: ans, src: Src::Raw(Bytes(sixel_tail(v))), inner: vec![], muts: vec![] });
+            }
+        }
+    }
+    // (ii) two-sequence prefixes from {resize wider, resize narrower, margins, cursor far right / bottom, origin mode}, a cursor
+    //      movement, then the sixel
+    let setups: [&[u8]; 6] = [b"", b"\x1b[8;30;132t", b"\x1b[8;10;20t", b"\x1b[5;20r\x1b[?69h\x1b[10;70s", b"\x1b[60;120H", b"\x1b[?6h"];
+    let moves: Vec<Vec<u8>> = vec![
+        vec![],
+        seq(b'B', &[2_147_483_647]),
+        seq(b'B', &[200_000_000]),
+        seq(b'C', &[2_147_483_647]),
+        seq(b'C', &[999]),
+        seq(b'H', &[2_147_483_647, 2_147_483_647]),
+        seq(b'H', &[1, 200]),
+        seq(b'H', &[3, 100]),
+        seq(b'G', &[131]),
+        seq(b'd', &[65536]),
+    ];
+    for (i, a) in setups.iter().enumerate() {
+        for (j, b) in setups.iter().enumerate() {
+            if i == j && i != 0 {
+                continue;
+            }
+            for m in &moves {
+                let mut v = b"ab".to_vec();
+                v.extend_from_slice(a);
+                v.extend_from_slice(b);
+                v.extend_from_slice(m);
+                out.push(Case { target: ans, src: Src::Raw(Bytes(sixel_tail(v))), inner: vec![], muts: vec![] });
             }
         }
     }
